@@ -177,6 +177,12 @@ Proof.
   destruct (parse_float _) as [g|]; [|discriminate]. apply f64_eqb_eq in H2. congruence.
 Qed.
 
+Lemma float_exactb_sound f : float_exactb f = true -> float_exact f.
+Proof.
+  unfold float_exactb, float_exact. rewrite andb_true_iff. intros [H1 H2]. split; [now apply float_shapeb_sound|].
+  destruct (parse_float _) as [g|]; [|discriminate]. apply f64_eqb_eq in H2. congruence.
+Qed.
+
 Lemma floats_okb_sound v : floats_okb v = true -> floats_ok v.
 Proof.
   induction v using jv_ind2; cbn; auto.
